@@ -29,7 +29,7 @@ CHECKS = {'C12': {'level': 'exploration',
                          'overloads are driven by 8 (quick) / 64 (thorough) replayable std::random_device sequences',
                          'asserted preconditions of the samplers are respected (count <= n without replacement, n >= 1, '
                          'non-negative weights with a positive sum, radius > 0)'],
-         'deadline': {'quick': 240, 'thorough': 1500},
+         'deadline': {'quick': 480, 'thorough': 2400},
          'stages': [{'name': 'kfold',
                      'harness': 'c12_split',
                      'args': ['--stage', 'kfold'],
